@@ -182,7 +182,7 @@ pub const ALL_EDIT_KINDS: &[&str] = &[
     "delete_decl", "dup_decl", "swap_decls", "move_decl", "rename_export", "toggle_export",
     "retarget_import", "add_export_star", "second_default", "alias_wrap", "flip_primitive",
     "add_property", "append_type", "truncate", "drop_line", "stray_token", "unbalance", "garbage",
-    "foreign_content", "revert", "create_file", "delete_file", "touch", "shadow_file", "package_shadow", "case_twin",
+    "foreign_content", "revert", "create_file", "delete_file", "touch", "shadow_file", "package_shadow", "case_twin", "reformat_eol", "redoc",
 ];
 
 pub struct EditCtx<'a> {
@@ -236,6 +236,36 @@ pub fn apply_edit(kind: &'static str, fs: &Fs, f: &str, content: &str, rng: &mut
             one("revert", f, (*rng.pick(&cands)).clone())
         }
         "touch" => one("touch", f, content.to_string()),
+        "redoc" => {
+            // a save that changes doc comments only (or adds the first one)
+            let new = crate::gen::doc_rewrite(content, rng.below(7));
+            if new == content {
+                return None;
+            }
+            one("redoc", f, new)
+        }
+        "reformat_eol" => {
+            // the same declarations with other line ends / byte order mark / end of file: every
+            // byte position in the file moves, nothing else does
+            let bom = '\u{feff}';
+            let new = match rng.below(5) {
+                0 => content.replace("\r\n", "\n").replace('\n', "\r\n"),
+                1 => content.replace("\r\n", "\n"),
+                2 => {
+                    if content.starts_with(bom) {
+                        content[bom.len_utf8()..].to_string()
+                    } else {
+                        format!("{}{}", bom, content)
+                    }
+                }
+                3 => content.trim_end().to_string(),
+                _ => format!("\n\n{}\n\n", content),
+            };
+            if new == content {
+                return None;
+            }
+            one("reformat_eol", f, new)
+        }
         "create_file" => {
             // a new module that somebody may or may not import later
             let dir = dirname(f);
